@@ -1,4 +1,125 @@
-import LasioModel.Basic
-/- Copy model (to be filled in) -/
+import LasioModel.Section
+/-
+Model of pickling / deep-copying lasio objects (las_items.py: `HeaderItem.__reduce__`, `HeaderItem.__init__`,
+`CurveItem.__init__`, `SectionItems.__deepcopy__`; the list-rebuild paths of the CPython 3.12 runtime).
+
+Determined experimentally on this interpreter (CPython 3.12.1; harness/props/c17.py re-checks the call pattern on
+every run by instrumenting `SectionItems.append/insert/extend/__setattr__`/`assign_duplicate_suffixes`):
+
+ITEMS. `HeaderItem.__reduce__` returns `(cls, (original_mnemonic, unit, value, descr, data), {"mnemonic": session})`.
+  Both `pickle` (BUILD opcode) and `copy._reconstruct` call `cls(*args)` and then, because the class has no
+  `__setstate__`, apply the state with `obj.__dict__.update(state)` — this BYPASSES `HeaderItem.__setattr__`, so
+  the session mnemonic is restored verbatim and the original mnemonic is not touched.  `HeaderItem.__init__` stores
+  `data` as given; `CurveItem.__init__` replaces `data=None` by `[]` and stores `np.asarray(data)` (the identity on an
+  ndarray, so content and dtype are kept; a curve whose `data` attribute was set to `None` comes back with an
+  empty float array: `C17_counterexample_curve_data_none`).
+
+SECTIONS (`SectionItems`, a `list` subclass whose `__dict__` holds `mnemonic_transforms`; default `__reduce_ex__`):
+  * pickle protocol 0/1: `copyreg._reconstructor(cls, list, [items…])` = `list.__new__` + `list.__init__(obj, items)`
+    (`SectionItems.__init__` is NOT run), then BUILD → `__dict__.update({"mnemonic_transforms": tr})`.
+    No lasio code runs.
+  * pickle protocol 2..5: `copyreg.__newobj__(cls)` (no `__init__`), then APPENDS → for a list subclass the
+    unpickler calls the object's `extend` attribute = the inherited `list.extend` (lasio does not override
+    `extend`), THEN BUILD restores the state.  Items first, state second; no lasio code runs.
+  * `copy.deepcopy`: `SectionItems.__deepcopy__` (added by the repair of the finding below): `cls()` (runs
+    `__init__`: empty list, `mnemonic_transforms = False`), `list.extend` with the deep-copied items, then
+    `__dict__.update(deepcopy(self.__dict__))`.  Items first, state second; `append` is not used.
+  * BEFORE that repair `copy.deepcopy` went through `copy._reconstruct`: state first (`__dict__.update`), then
+    `y.append(item)` for every item = lasio's overridden `append` → `assign_duplicate_suffixes(item.useful_mnemonic)`,
+    which renumbered stale suffixes in the copy (`['A:2','A:3']` → `['A:1','A:2']`): `rebuildSectionOld`,
+    `C17_counterexample_deepcopy_old`.
+In every path each item is itself pickled / deep-copied (`rebuildItem ∘ reduceItem`).
+
+LASFile: a plain object; its `__dict__` (the `sections` dict name → SectionItems | str, `index_unit`, …) is
+pickled / deep-copied attribute by attribute.
+-/
 namespace Lasio
+
+/-- a Python item object: the header fields, the `data` attribute as an opaque tag (array content + dtype;
+`none` = Python `None`) and whether it is a `CurveItem` -/
+structure PyItem where
+  it : Item
+  data : Option Str
+  isCurve : Bool
+deriving DecidableEq, Repr
+
+/-- what `__reduce__` returns: constructor arguments and the state dict -/
+structure Reduced where
+  isCurve : Bool                -- the class
+  mnemonic : Str                -- args
+  unit : Str
+  value : Str
+  descr : Str
+  data : Option Str
+  state : Option Str            -- `{"mnemonic": …}` (none: no state)
+deriving DecidableEq, Repr
+
+/-- tag of `np.asarray([])` -/
+def emptyArrayTag : Str := "float64:[]".toList
+
+/-- `HeaderItem.__reduce__` -/
+def reduceItem (o : PyItem) : Reduced :=
+  ⟨o.isCurve, o.it.orig, o.it.unit, o.it.value, o.it.descr, o.data, some o.it.session⟩
+
+/-- `cls(*args)` followed by `obj.__dict__.update(state)` -/
+def rebuildItem (r : Reduced) : PyItem :=
+  let it := mkItem r.mnemonic r.unit r.value r.descr
+  let it' := match r.state with
+    | some m => { it with session := m }
+    | none => it
+  ⟨it', if r.isCurve then some (r.data.getD emptyArrayTag) else r.data, r.isCurve⟩
+
+/-- the ORIGINAL `__reduce__` (before the repair of R12): the session mnemonic is passed as the constructor's
+`mnemonic` argument and there is no state -/
+def reduceItemOld (o : PyItem) : Reduced :=
+  ⟨o.isCurve, o.it.session, o.it.unit, o.it.value, o.it.descr, o.data, none⟩
+
+/-- a list of item objects copied one by one (the items of a section, with their `data`) -/
+def rebuildObjs (l : List PyItem) : List PyItem := l.map fun o => rebuildItem (reduceItem o)
+
+/-- header fields only -/
+def copyItem (it : Item) : Item := (rebuildItem (reduceItem ⟨it, none, false⟩)).it
+
+inductive RebuildPath where
+  | pickle01      -- protocols 0, 1
+  | pickle2plus   -- protocols 2 … 5
+  | deepcopy      -- copy.deepcopy (SectionItems.__deepcopy__)
+deriving DecidableEq, Repr
+
+/-- `list.__init__(obj, items)` / `list.extend(obj, items)` : plain list code, no re-suffixing -/
+def cpListExtend (s : Section) (l : List Item) : Section := { s with items := s.items ++ l }
+/-- `obj.__dict__.update({"mnemonic_transforms": tr})` -/
+def cpSetState (s : Section) (tr : Bool) : Section := { s with tr := tr }
+/-- an object created without `__init__` (`list.__new__`): empty; `mnemonic_transforms` is missing, which no code
+observes before the state is restored (the placeholder `false` is never read) -/
+def cpNewObj : Section := ⟨[], false⟩
+/-- `SectionItems()` -/
+def cpClassCall : Section := ⟨[], false⟩
+
+def rebuildSection (p : RebuildPath) (s : Section) : Section :=
+  match p with
+  | .pickle01 => cpSetState (cpListExtend cpNewObj (s.items.map copyItem)) s.tr
+  | .pickle2plus => cpSetState (cpListExtend cpNewObj (s.items.map copyItem)) s.tr
+  | .deepcopy => cpSetState (cpListExtend cpClassCall (s.items.map copyItem)) s.tr
+
+/-- `copy.deepcopy` of a section BEFORE the repair: `copy._reconstruct` restores the state and then appends the
+copied items one by one with lasio's `append` -/
+def rebuildSectionOld (s : Section) : Section :=
+  (s.items.map copyItem).foldl Section.append (cpSetState cpNewObj s.tr)
+
+/-- the session names are those `assign_duplicate_suffixes` would produce: re-running it for any test mnemonic
+changes nothing -/
+def Canonical (s : Section) : Prop := ∀ t, s.assignSuffixes t = s
+
+/-- a LASFile as far as copying is concerned: its sections in order (name, SectionItems), the `Other` text and
+the remaining plain attributes (`index_unit`, …) as opaque tags -/
+structure CopyLas where
+  sections : List (Str × Section)
+  other : Str
+  attrs : List (Str × Str)
+deriving DecidableEq, Repr
+
+def rebuildLas (p : RebuildPath) (l : CopyLas) : CopyLas :=
+  { l with sections := l.sections.map fun ns => (ns.1, rebuildSection p ns.2) }
+
 end Lasio
